@@ -1,5 +1,5 @@
 import Cell2v.Driver.Util
-import Cell2v.Model.SceneM
+import Cell2v.Model.SceneMNode
 /-!
 Model driver for C19 (MMO scene manager).
 
@@ -24,12 +24,20 @@ open Cell2v.Driver Cell2v.SceneM
 /-! ### model side -/
 
 structure DSt where
-  s : Sys := Sys.init                       -- manager, cluster view, allocation requests in flight (Model/SceneM.lean)
+  node : Node := Node.init true true        -- the node-level model (Model/SceneMNode.lean): system + public-scene table + the two timers
   cfgs : List Nat := []
+
+/-- manager, cluster view, allocation requests in flight (Model/SceneM.lean) -/
+def DSt.s (d : DSt) : Sys := d.node.sys
+
+def DSt.setS (d : DSt) (s : Sys) : DSt := { d with node := { d.node with sys := s } }
+
+/-- the system moved and may have sent requests (deadlines noted, expiry check armed: `Node.withSys`) -/
+def DSt.moveS (d : DSt) (s : Sys) : DSt := { d with node := d.node.withSys s }
 
 def DSt.m (d : DSt) : Mgr := d.s.m
 
-def DSt.setM (d : DSt) (m : Mgr) : DSt := { d with s := { d.s with m := m } }
+def DSt.setM (d : DSt) (m : Mgr) : DSt := d.setS { d.s with m := m }
 
 def joinWith (sep : String) (xs : List String) : String := sep.intercalate xs
 
@@ -43,7 +51,9 @@ def dump (s : DSt) : String :=
   let sv := s.m.services.mergeSort (fun a b => a.1 ≤ b.1)
   let vs := sv.map fun e => s!"{e.1}:{if e.2.working then 1 else 0}:{e.2.n}:{e.2.failed}:{s.m.now - e.2.last}"
   "S=" ++ joinWith "," (sc.map showScene) ++ " L=" ++ joinWith ";" ls ++ " V=" ++ joinWith "," vs ++
-    " P=" ++ joinWith "," (s.s.pending.map fun e => s!"{e.sid}:{e.cfg}:{e.svc}")
+    " P=" ++ joinWith "," (s.s.pending.map fun e => s!"{e.sid}:{e.cfg}:{e.svc}") ++
+    " T=" ++ joinWith "," ((s.node.table.mergeSort (fun a b => a.1 ≤ b.1)).map fun e => s!"{e.1}:{e.2}") ++
+    " K=" ++ (if s.node.keeperDue.isSome then "1" else "0") ++ s!" N={s.m.nextId}"
 
 def isArgmin (svcs : List (Nat × Stat)) (k : Nat) : Bool :=
   svcs.any fun e => e.1 == k && e.2.working &&
@@ -76,17 +86,19 @@ def placeOp (s : DSt) (ws : List String) (order : List (Nat × Stat)) : DSt × S
   let cfg := (kvNat ws "cfg").getD 0
   if ws.head? == some "keeper" then
     let n := (kvNat ws "n").getD 0
+    -- the harness's `keeper` op replaces the table by this one entry, then runs `Update`
+    let s : DSt := { s with node := s.node.step (.setOne cfg n) }
     let (sys', cnt) := s.s.keeper cfg n order
     -- what was sent is visible as the new last entry of the request table
     let tag := if sys'.pending.length == s.s.pending.length then "quiet"
                else match sys'.pending.getLast? with | some p => s!"{p.sid}:{p.svc}:sent" | none => "quiet"
-    ({ s with s := sys' }, s!"{tag}/{cnt}")
+    (s.moveS sys', s!"{tag}/{cnt}")
   else if ws.head? == some "halloc" then
     let (sys', r) := s.s.halloc cfg order
-    ({ s with s := sys' }, showHAlloc r)
+    (s.moveS sys', showHAlloc r)
   else
     let (sys', r) := s.s.spawn cfg order
-    ({ s with s := sys' }, showSpawned r)
+    (s.moveS sys', showSpawned r)
 
 /-- the visiting orders worth trying: the map's own order, and each service first (by
 `alloc_any_least_busy_possible` / `alloc_prefers_least_busy` these reach every possible choice) -/
@@ -96,9 +108,15 @@ def orders (s : DSt) : List (List (Nat × Stat)) :=
 
 /-- deterministic part of an op: new state and, for deterministic ops, the result -/
 def apply (s : DSt) (ws : List String) : Option (DSt × Option String) :=
-  let sev (e : SEv) : Option (DSt × Option String) := some ({ s with s := s.s.step e }, some "ok")
+  let sev (e : SEv) : Option (DSt × Option String) := some ({ s with node := s.node.step (.sys e) }, some "ok")
   match ws.head? with
-  | some "reset" => some ({}, some "ok")
+  | some "reset" =>
+    -- the flags of mmo/common/config as the harness read them (absent: both set, as in the repository)
+    some ({ node := Node.init ((kvNat ws "perf").getD 1 != 0) ((kvNat ws "pub").getD 1 != 0) }, some "ok")
+  | some "pubadd" => do
+    some ({ s with node := s.node.step (.addPublic (← kvNat ws "cfg") (← kvNat ws "n")) }, some "ok")
+  | some "update" => some (s, none)
+  | some "timers" => some (s, none)
   | some "route" => do
     let v ← kv ws "svcs"
     sev (.route ((v.splitOn ",").filterMap String.toNat?))
@@ -109,14 +127,14 @@ def apply (s : DSt) (ws : List String) : Option (DSt × Option String) :=
     let sid ← kvNat ws "sid"
     let res ← kv ws "res"
     match s.s.pending.find? (fun e => e.sid == sid) with
-    | none => some ({ s with s := s.s.step (.reply sid (res == "ok")) }, some "unknown")
+    | none => some (s.setS (s.s.step (.reply sid (res == "ok"))), some "unknown")
     | some p =>
       -- the waiting client of the AllocScene handler (if any) is answered now
       let ack := match s.s.replyAck sid (res == "ok") with
         | none => ""
         | some true => s!"+ack:{sid}:{p.svc}"
         | some false => "+nack"
-      some ({ s with s := s.s.step (.reply sid (res == "ok")), cfgs := p.cfg :: s.cfgs }, some ("done" ++ ack))
+      some ({ s.setS (s.s.step (.reply sid (res == "ok"))) with cfgs := p.cfg :: s.cfgs }, some ("done" ++ ack))
   | some "refresh" => do sev (.refresh (← kvNat ws "svc") (← kvNat ws "n"))
   | some "adv" => do sev (.adv (← kvNat ws "ms"))
   | some "tick" => sev .tick
@@ -130,6 +148,74 @@ def apply (s : DSt) (ws : List String) : Option (DSt × Option String) :=
   | some "alloc" => do let _ ← kvNat ws "cfg"; some (s, none)
   | some "req" => do let _ ← kvNat ws "cfg"; some (s, none)
   | _ => none
+
+/-! ### whole keeper rounds and the timer queue (Model/SceneMNode.lean) -/
+
+def insertions (x : α) : List α → List (List α)
+  | [] => [[x]]
+  | y :: ys => (x :: y :: ys) :: (insertions x ys).map (y :: ·)
+
+def perms : List α → List (List α)
+  | [] => [[]]
+  | x :: xs => (perms xs).flatMap (insertions x)
+
+/-- visiting orders of the service map that lead to different choices of `FindIdleService` -/
+def ordersDistinct (svcs : List (Nat × Stat)) : List (List (Nat × Stat)) :=
+  let all := svcs :: svcs.map (fun e => e :: svcs.erase e)
+  all.foldl (fun acc o => if acc.any (fun o' => findIdle satKey o' == findIdle satKey o) then acc else acc ++ [o]) []
+
+/-- every way one `Update` can go: the table in any order, every `SpawnScene` with any choice among the least busy -/
+def visitCands (table : List (Nat × Nat)) (svcs : List (Nat × Stat)) : List (List Visit) :=
+  let os := ordersDistinct svcs
+  (perms table).flatMap fun t =>
+    t.foldr (fun e acc => os.flatMap fun o => acc.map fun vs => ((e, o) : Visit) :: vs) [[]]
+
+def showSent (old new : List Pend) : String :=
+  let added := new.filter (fun p => !(old.any (fun q => q.sid == p.sid)))
+  if added.isEmpty then "quiet" else joinWith ";" (added.map fun p => s!"{p.sid}:{p.svc}:{p.cfg}")
+
+def updateOp (s : DSt) (visits : List Visit) : DSt × String :=
+  let n' := s.node.step (.update visits)
+  ({ s with node := n' }, showSent s.s.pending n'.sys.pending)
+
+def allKinds : List TK := [.tick, .keeper, .expiry]
+
+def firedCount (n : Node) : Nat := (allKinds.filter fun k => (n.queuedAt k).isSome).length
+
+def timersOp (s : DSt) (order : List TK) (visits : List Visit) : DSt × String :=
+  let n' := s.node.step (.timers order visits)
+  -- clients of the AllocScene handler whose request expired are told so
+  let nacks := s.s.waiting.length - n'.sys.waiting.length
+  ({ s with node := n' }, s!"f{firedCount s.node}/" ++ showSent s.s.pending n'.sys.pending ++
+    String.join (List.replicate nacks "+nack"))
+
+/-- `NEv.Ok`: the queue is in firing order -/
+def orderOk (n : Node) : List TK → Bool
+  | [] => true
+  | a :: rest => rest.all (fun b => match n.queuedAt a, n.queuedAt b with
+      | some da, some db => decide (da ≤ db)
+      | _, _ => true) && orderOk n rest
+
+def orderCands (n : Node) : List (List TK) := (perms allKinds).filter (orderOk n)
+
+def timersCands (s : DSt) : List (DSt × String) :=
+  (orderCands s.node).flatMap fun order =>
+    let base := s.node.beforeKeeper order
+    let vcs := if base.keeperQueued then visitCands base.table base.sys.m.services else [[]]
+    vcs.map (timersOp s order)
+
+def defaultVisits (n : Node) : List Visit := n.table.map fun e => (e, n.sys.m.services)
+
+def isRoundOp (ws : List String) : Bool := ws.head? == some "update" || ws.head? == some "timers"
+
+def roundModel (s : DSt) (ws : List String) : DSt × String :=
+  if ws.head? == some "update" then updateOp s (defaultVisits s.node)
+  else
+    let order := (orderCands s.node).headD allKinds
+    timersOp s order (defaultVisits (s.node.beforeKeeper order))
+
+def roundCands (s : DSt) (ws : List String) : List (DSt × String) :=
+  if ws.head? == some "update" then (visitCands s.node.table s.m.services).map (updateOp s) else timersCands s
 
 def isPlaceOp (ws : List String) : Bool :=
   ws.head? == some "spawn" || ws.head? == some "keeper" || ws.head? == some "halloc"
@@ -147,6 +233,9 @@ def stepModel (s : DSt) (line : String) : DSt × String :=
     else if isPlaceOp ws then
       let (s', r) := placeOp s ws s.m.services
       (s', s!"r={r} " ++ dump s')
+    else if isRoundOp ws then
+      let (s', r) := roundModel s ws
+      (s', s!"r={r} " ++ dump s')
     else
       let cfg := (kvNat ws "cfg").getD 0
       (s, s!"r={showReq (s.m.world.reqScene cfg 0)} " ++ dump s)
@@ -162,7 +251,21 @@ def stepAccept (s : DSt) (line : String) : DSt × String :=
       (s', if obs == want then "ok" else "REJECT want " ++ want)
     | some (_, none) =>
       let r := ((kv (words obs) "r").getD "?")
-      if ws.head? == some "alloc" then
+      if ws.head? == some "alloc" && s.m.services.any (fun e => e.1 == 0) then
+        -- a service is registered under the empty id (outside the property's hypothesis): the literal loop of
+        -- FindIdleService (`findIdleGo`) decides, over every visiting order of the service map
+        let answers := (perms s.m.services).map (findIdleGo satKey)
+        if r == "none" then
+          let want := "r=none " ++ dump s
+          (s, if answers.contains none && obs == want then "ok" else "REJECT (empty service id) want a placement or " ++ want)
+        else
+          let s' := s.setM (s.m.step .alloc)
+          let okR := match r.splitOn ":" with
+            | [a, b] => a.toNat? == some s.m.nextId && (match b.toNat? with | some k => answers.contains (some k) | none => false)
+            | _ => false
+          if okR && obs == s!"r={r} " ++ dump s' then (s', "ok")
+          else (s, "REJECT (empty service id) want one of the answers of the literal FindIdleService loop and " ++ dump s)
+      else if ws.head? == some "alloc" then
         if r == "none" then
           let want := "r=none " ++ dump s
           (s, if (findIdle satKey s.m.services).isNone && obs == want then "ok" else "REJECT want a placement or " ++ want)
@@ -177,6 +280,14 @@ def stepAccept (s : DSt) (line : String) : DSt × String :=
             -- follow the model's own choice
             let (sm, o) := stepModel s op
             (sm, "REJECT want (any least-busy working service) e.g. " ++ o)
+      else if isRoundOp ws then
+        -- a whole keeper round / the timer queue: accepted iff the model gives exactly this result and state for SOME
+        -- order of the table, SOME choice among the least busy per entry and SOME admissible queue order
+        match (roundCands s ws).find? (fun o => s!"r={o.2} " ++ dump o.1 == obs) with
+        | some o => (o.1, "ok")
+        | none =>
+          let (sm, o) := stepModel s op
+          (sm, "REJECT want (for some order of the table / of the service map / of the timer queue) e.g. " ++ o)
       else if isPlaceOp ws then
         -- SpawnScene / the keeper: accepted iff the model, for SOME visiting order of the service map,
         -- gives exactly this result and this state
@@ -221,6 +332,7 @@ structure PDump where
   lines : List PLine      -- in the implementation's slice order, per configuration
   stats : List PStat
   pending : List PScene   -- unanswered allocation requests (sid, cfg, svc; `line` unused)
+  table : List (Nat × Nat) := []   -- the public-scene table (configuration, required number)
   deriving BEq
 
 def splitNonEmpty (s : String) (sep : String) : List String := (s.splitOn sep).filter (· ≠ "")
@@ -254,7 +366,11 @@ def parseDump (ws : List String) : Option PDump := do
     match e.splitOn ":" with
     | [a, b, c] => do some (⟨← a.toNat?, ← b.toNat?, 0, c⟩ : PScene)
     | _ => none)
-  some ⟨scenes, lines.flatten, stats, pending⟩
+  let table := (splitNonEmpty ((kv ws "T").getD "") ",").filterMap (fun e =>
+    match e.splitOn ":" with
+    | [a, b] => do some (← a.toNat?, ← b.toNat?)
+    | _ => none)
+  some ⟨scenes, lines.flatten, stats, pending, table⟩
 
 def strictlyIncreasing : List Nat → Bool
   | a :: b :: rest => a < b && strictlyIncreasing (b :: rest)
@@ -284,6 +400,7 @@ structure SpecSt where
   tainted : Bool := false
   now : Nat := 0                          -- virtual time: the sum of the `adv` steps of this case
   since : List (String × Nat) := []       -- per service: time of its last refresh
+  sentAt : List (Nat × Nat) := []         -- per allocation request (scene id): when it first showed in flight
 
 def satW (n : Nat) : Nat := min n 5000
 
@@ -310,6 +427,29 @@ def checkPlacement (d : PDump) (a k : String) : Option String :=
       some s!"C19/alloc-not-least-busy placed on {k} although a less busy working service exists"
     else if d.scenes.any (fun o => some o.sid == a.toNat?) then some s!"C19/alloc-live-scene-id {a}"
     else none
+
+/-- the requests one keeper round sent (`sid:svc:cfg;…`): each for an entry of the table that has fewer confirmed
+lines than required, at most one per entry, each placed on a least-busy working service -/
+def checkRound (r : String) (p d : PDump) : Option String :=
+  let sent := (splitNonEmpty r ";").filterMap (fun e =>
+    match e.splitOn ":" with
+    | [a, k, c] => c.toNat?.map (fun cfg => (a, k, cfg))
+    | _ => none)
+  if r != "quiet" && sent.length != (splitNonEmpty r ";").length then some "C19/keeper-spawned-beyond-need unreadable list of requests"
+  else if !(sent.map (·.2.2)).eraseDups.length == sent.length then
+    some "C19/keeper-spawned-beyond-need more than one request for one public scene in one round"
+  else
+    match sent.find? (fun e => !(d.table.any fun t => t.1 == e.2.2 && decide ((d.lines.filter (·.cfg == e.2.2)).length < t.2))) with
+    | some e => some s!"C19/keeper-spawned-beyond-need a request was sent for configuration {e.2.2} which is not a public scene below its required number"
+    | none =>
+      -- placement: judged on the service stats of the moment; when the keep-alive check ran in the same serving of
+      -- the queue that is the state before it or after it
+      sent.findSome? (fun e => match checkPlacement { d with stats := p.stats } e.1 e.2.1 with
+        | none => none
+        | some _ => checkPlacement d e.1 e.2.1)
+
+def lostByCheck (p d : PDump) : List String :=
+  (p.stats.filter fun s => s.working && !(d.stats.any fun t => t.svc == s.svc && t.working)).map (·.svc)
 
 def checkOp (ws : List String) (r : String) (p d : PDump) : Option String :=
   let unchanged : Option String :=
@@ -396,6 +536,28 @@ def checkOp (ws : List String) (r : String) (p d : PDump) : Option String :=
       else match r.splitOn ":" with
         | [a, k] => checkPlacement d a k
         | _ => some "C19/alloc-on-non-working unreadable answer"
+  | some "update" =>
+    match unchanged with
+    | some _ => some "C19/world-changed-by-readonly-op a keeper round registered or removed a scene (only a confirmed creation registers one)"
+    | none => if p.table != d.table then some "C19/world-changed-by-readonly-op the public-scene table changed in a round" else checkRound r p d
+  | some "timers" =>
+    -- the keep-alive check (if it ran) removes exactly the scenes of the services it declares lost; the keeper registers nothing
+    if !sameScenes d.scenes (p.scenes.filter (fun o => !(lostByCheck p d).contains o.svc)) then
+      some "C19/lost-removed-wrong-set the periodic check must remove exactly the scenes of the services it declares lost"
+    else if (r.splitOn "/").headD "" == "f0" && !(p == d) then
+      some "C19/world-changed-by-readonly-op no timer was due, yet the state changed"
+    else checkRound ((((r.splitOn "/").getD 1 "quiet").splitOn "+").headD "quiet") p d
+  | some "pubadd" =>
+    match unchanged with
+    | some v => some v
+    | none =>
+      -- addPublicScene: an existing entry is kept, a new one is added; nothing else
+      match kvNat ws "cfg", kvNat ws "n" with
+      | some cfg, some k =>
+        let want := if p.table.any (·.1 == cfg) then p.table else p.table ++ [(cfg, k)]
+        if (want.mergeSort (fun a b => a.1 ≤ b.1)) == d.table then none
+        else some "C19/public-table-wrong addPublicScene must keep an existing entry and add a new one"
+      | _, _ => none
   | some "adv" | some "weight" | some "route" => unchanged
   | _ => none
 
@@ -416,11 +578,16 @@ def stepSpec (s : SpecSt) (line : String) : SpecSt × String :=
           -- a create-success for a live id is outside the property's hypothesis: stop judging this case
           let dup := (ws.head? == some "create" || ws.head? == some "reply") &&
             (match s.prev, kvNat ws "sid" with | some p, some sid => p.scenes.any (·.sid == sid) | _, _ => false)
-          let tainted := s.tainted || dup
+          -- a service registered under the empty id is outside the hypothesis as well (FindIdleService uses "" for "none yet")
+          let emptyId := ws.head? == some "refresh" && kvNat ws "svc" == some 0
+          let tainted := s.tainted || dup || emptyId
           -- the keep-alive clock of the monitor itself
           let now := if ws.head? == some "adv" then s.now + (kvNat ws "ms").getD 0 else s.now
           let since := if ws.head? == some "refresh" then (svcTok ws, now) :: s.since.filter (·.1 != svcTok ws) else s.since
-          let s' : SpecSt := { prev := some d, tainted := tainted, now := now, since := since }
+          let fresh := match s.prev with
+            | some p => (d.pending.filter fun q => !(p.pending.any (·.sid == q.sid))).map (fun q => (q.sid, now))
+            | none => []
+          let s' : SpecSt := { prev := some d, tainted := tainted, now := now, since := since, sentAt := fresh ++ s.sentAt }
           if tainted then (s', "ok")
           else
             match consistency d with
@@ -433,15 +600,23 @@ def stepSpec (s : SpecSt) (line : String) : SpecSt × String :=
                 | some v => (s', "VIOLATION " ++ v ++ " after: " ++ op)
                 | none =>
                   -- the periodic check declares a service lost only after at least 4 x 3 s without a refresh
-                  let early := if ws.head? == some "tick" then
+                  let early := if ws.head? == some "tick" || ws.head? == some "timers" then
                       (p.stats.filter fun st => st.working && !(d.stats.any fun t => t.svc == st.svc && t.working)).find? fun st =>
                         match s.since.find? (·.1 == st.svc) with
                         | some (_, t0) => decide (now < t0 + 12000)
                         | none => false
                     else none
-                  match early with
-                  | some st => (s', s!"VIOLATION C19/lost-before-silence service {st.svc} was declared lost less than 12 s after its last refresh after: " ++ op)
-                  | none => (s', "ok")
+                  -- the request layer gives up on a request only when it has been unanswered for more than 30 s
+                  let expiredEarly := if ws.head? == some "timers" then
+                      (p.pending.filter fun q => !(d.pending.any (·.sid == q.sid))).find? fun q =>
+                        match s.sentAt.find? (·.1 == q.sid) with
+                        | some (_, t0) => decide (now ≤ t0 + 30000)
+                        | none => false
+                    else none
+                  match early, expiredEarly with
+                  | some st, _ => (s', s!"VIOLATION C19/lost-before-silence service {st.svc} was declared lost less than 12 s after its last refresh after: " ++ op)
+                  | none, some q => (s', s!"VIOLATION C19/request-expired-early the request for scene {q.sid} was given up less than 30 s after it was sent after: " ++ op)
+                  | none, none => (s', "ok")
   | _ => (s, "bad-line")
 
 end Cell2v.Driver.C19
